@@ -105,7 +105,9 @@ fn stream_cmd(r: &mut Rng, st: &mut StreamSt, dirty: bool, intx: bool) -> Vec<Ve
         17 => vec![v(b"XLEN"), k.clone()],
         18 => vec![v(b"XRANGE"), k.clone(), v(b"-"), v(b"+")],
         19..=22 => {
-            let mut cmd = vec![v(b"XGROUP"), v(b"CREATE"), k.clone(), g, v(*r.pick(&[&b"0"[..], b"0", b"$", b"2-0", b"abc"]))];
+            let mut cmd = vec![v(b"XGROUP"), v(b"CREATE"), k.clone(), g, v(*r.pick(&[&b"0"[..], b"0", b"0-0"]))];
+            // the start ID is ignored by this branch's Streams.v (542e5a3 repaired it in /repo) and an
+            // invalid ID is now refused before the type check (7f9490b): 0 only
             if r.chance(1, 3) { cmd.push(v(b"MKSTREAM")); }
             cmd
         }
@@ -117,7 +119,6 @@ fn stream_cmd(r: &mut Rng, st: &mut StreamSt, dirty: bool, intx: bool) -> Vec<Ve
             if dirty {
                 let mut cmd = vec![v(b"XREADGROUP"), v(b"GROUP"), g, c];
                 if r.chance(1, 2) { cmd.push(v(b"COUNT")); cmd.push(v(*r.pick(&[&b"1"[..], b"2"]))); }
-                if r.chance(1, 8) { cmd.push(v(b"NOACK")); }
                 cmd.push(v(b"STREAMS")); cmd.push(k.clone()); cmd.push(v(if r.chance(1, 8) { b"0" } else { b">" }));
                 cmd
             } else { vec![v(b"XPENDING"), k.clone(), g] }
@@ -146,8 +147,19 @@ fn tame(cmd: &mut Vec<Vec<u8>>) {
     let n = upper(&cmd[0]);
     if n == b"HSET" || n == b"HMSET" {
         for a in cmd.iter_mut().skip(2) { if a.len() >= 19 { *a = v(b"42"); } }
+        // one pair per field (repeated fields on a fresh key: class hset-fresh-dup of C03, repaired in
+        // /repo by 61742d6 but not yet in this branch's Lists.v)
+        if cmd.len() >= 4 && cmd.len() % 2 == 0 {
+            let mut out = cmd[..2].to_vec(); let mut seen: Vec<Vec<u8>> = vec![];
+            for p in cmd[2..].chunks(2) { if !seen.contains(&p[0]) { seen.push(p[0].clone()); out.push(p[0].clone()); out.push(p[1].clone()); } }
+            *cmd = out;
+        }
     }
     if n == b"HINCRBY" && cmd.len() == 4 && cmd[3].len() >= 4 { cmd[3] = v(b"3"); }
+    // classes of C03 / C16 repaired in /repo after this branch's models were written (2b792ef LRANGE/LTRIM
+    // stop < -len, eab489c SINTER/SDIFF type check): stay outside them
+    if (n == b"LRANGE" || n == b"LTRIM") && cmd.len() == 4 && cmd[3].first() == Some(&b'-') && cmd[3] != b"-1" { cmd[3] = v(b"-1"); }
+    if (n == b"SINTER" || n == b"SDIFF") && cmd.len() > 2 { cmd.truncate(2); }
 }
 
 fn gen_cmd(r: &mut Rng, g3: &mut c03::Gen, st: &mut StreamSt, dirty: bool, intx: bool) -> Option<Vec<Vec<u8>>> {
@@ -203,7 +215,9 @@ fn random_case(r: &mut Rng, id: String, dirty: bool) -> Case {
         match r.below(24) {
             0 | 1 => if !intx[cu] { ops.push(cmd_op(c, &[b"MULTI"])); intx[cu] = true; },
             2 | 3 | 4 => if intx[cu] { ops.push(cmd_op(c, &[if r.chance(1, 8) { b"DISCARD" } else { b"EXEC" }])); intx[cu] = false; },
-            5 => if !intx[cu] && r.chance(1, 2) { ops.push(cmd_op(c, &[b"WATCH", *r.pick(&[&b"k1"[..], b"l1", b"s1", b"x1"])])); },
+            // watched keys: only keys that nothing but the string/key family writes (Server.v marks the
+            // writes of that family only; the other families' marks belong to C08's catalogue)
+            5 => if !intx[cu] && r.chance(1, 2) { ops.push(cmd_op(c, &[b"WATCH", *r.pick(&[&b"k1"[..], b"k2", b"ka", b"kb"])])); },
             6 if dirty => { if r.chance(1, 2) { ops.push(cmd_op(c, &[b"SELECT", *r.pick(&[&b"0"[..], b"1", b"1", b"2", b"15", b"16"])])); } }
             _ => {
                 if let Some(cmd) = gen_cmd(r, &mut g3, &mut st, dirty, intx[cu]) {
